@@ -249,8 +249,76 @@ pub fn generate(out: &Path) -> Result<(), String> {
 /// latest pointer after the first upload had been stored) - two versions on the nil parent, both
 /// acknowledged, the second one latest. Written through the pinned tree's storage API with the
 /// transaction sequence its handler ran. Plus an ordinary client with a snapshot.
+fn has_extra(out: &Path, tag: &str) -> bool {
+    std::fs::read_dir(out).map(|rd| rd.flatten().any(|e| std::fs::read_to_string(e.path().join("meta.json")).ok().and_then(|s| serde_json::from_str::<Value>(&s).ok()).map(|m| m["extra"] == tag).unwrap_or(false))).unwrap_or(false)
+}
+
+/// A directory with long histories (1 500 versions of one client, 400 of another, snapshots on
+/// the way), written through the pinned tree's storage API: what a start-up step with a count
+/// or time budget meets after an upgrade.
+pub fn generate_long_history(out: &Path) -> Result<(), String> {
+    use taskchampion_sync_server_core::{Snapshot, Storage};
+    if has_extra(out, "long-history") {
+        return Ok(());
+    }
+    let n = std::fs::read_dir(out).map_err(|e| e.to_string())?.count();
+    let d = out.join(format!("raw-{n:04}"));
+    let scratch = Scratch::new("long-history");
+    let dir = scratch.path().join("data");
+    std::fs::create_dir_all(&dir).map_err(|e| e.to_string())?;
+    let e = |x: anyhow::Error| format!("{x:#}");
+    let mut known: Vec<Uuid> = vec![Uuid::nil()];
+    {
+        let st = taskchampion_sync_server_storage_sqlite::SqliteStorage::new(&dir).map_err(e)?;
+        for (c, len) in [(0u8, 1500usize), (1u8, 400usize)] {
+            let cu = client_uuid(GEN_SEED, c);
+            let mut t = st.txn(cu).map_err(e)?;
+            t.new_client(Uuid::nil()).map_err(e)?;
+            t.commit().map_err(e)?;
+            drop(t);
+            let mut parent = Uuid::nil();
+            for i in 0..len {
+                let id = crate::sut::det_uuid(GEN_SEED, 80 + c as u64, i as u64);
+                known.push(id);
+                let mut t = st.txn(cu).map_err(e)?;
+                t.add_version(id, parent, format!("long-{c}-{i}").into_bytes()).map_err(e)?;
+                if i % 333 == 332 {
+                    t.set_snapshot(Snapshot { version_id: id, timestamp: chrono::Utc::now(), versions_since: 0 }, format!("snapshot-{c}-{i}").into_bytes()).map_err(e)?;
+                }
+                t.commit().map_err(e)?;
+                parent = id;
+            }
+        }
+    }
+    let img: DirImage = read_dir_image(&dir).into_iter().filter(|(k, _)| !k.ends_with("-shm")).collect();
+    let got = ecrash::recover(&img, GEN_SEED, &known, false).map_err(|e| format!("pinned tree cannot read its own long-history directory: {e}"))?;
+    if got.clients.get(&0).map(|c| c.0.len()) != Some(1500) || got.clients.get(&1).map(|c| c.0.len()) != Some(400) {
+        return Err("pinned tree reads back something else than it stored (long histories)".into());
+    }
+    write_dir_image(&d, &img);
+    let clients: Vec<Value> = got.clients.iter().map(|(c, (chain, snap))| json!({
+        "client": c,
+        "chain": chain.iter().map(|(i, p, h, l)| json!([i.to_string(), p.to_string(), format!("{h:016x}"), l])).collect::<Vec<_>>(),
+        "snapshot": snap.as_ref().map(|(v, h, l)| json!([v.to_string(), format!("{h:016x}"), l])),
+    })).collect();
+    let meta = json!({
+        "kind": "raw", "extra": "long-history", "seed": GEN_SEED,
+        "description": "clean shutdown; long histories: 1 500 versions of one client, 400 of another, a snapshot every 333 versions",
+        "history": ["1500 x AddVersion(A)", "400 x AddVersion(B)"],
+        "has_wal": img.keys().any(|k| k.ends_with("-wal")),
+        "known_ids": known.iter().map(|u| u.to_string()).collect::<Vec<_>>(),
+        "expected": clients,
+    });
+    std::fs::write(d.join("meta.json"), serde_json::to_string(&meta).unwrap()).map_err(|e| e.to_string())?;
+    println!("corpus: long-history directory written to {}", d.display());
+    Ok(())
+}
+
 pub fn generate_legacy_fork(out: &Path) -> Result<(), String> {
     use taskchampion_sync_server_core::{Snapshot, Storage};
+    if has_extra(out, "legacy-fork") {
+        return Ok(());
+    }
     let n = std::fs::read_dir(out).map_err(|e| e.to_string())?.count();
     let d = out.join(format!("raw-{n:04}"));
     let scratch = Scratch::new("legacy-fork");
@@ -291,7 +359,7 @@ pub fn generate_legacy_fork(out: &Path) -> Result<(), String> {
     let img: DirImage = read_dir_image(&dir).into_iter().filter(|(k, _)| !k.ends_with("-shm")).collect();
     write_dir_image(&d, &img);
     let meta = json!({
-        "kind": "legacy-fork", "seed": GEN_SEED,
+        "kind": "legacy-fork", "extra": "legacy-fork", "seed": GEN_SEED,
         "description": "two overlapping first uploads of a new client, both acknowledged by the pinned release (its defect F1): two versions on the nil parent, the second one latest; plus an ordinary client with a snapshot",
         "forked": {"client": a.to_string(), "latest": v2.to_string(), "versions": [[v1.to_string(), Uuid::nil().to_string(), "first racer"], [v2.to_string(), Uuid::nil().to_string(), "second racer"]]},
         "ordinary": {"client": b.to_string(), "chain": [[b1.to_string(), Uuid::nil().to_string(), "b-1"], [b2.to_string(), b1.to_string(), "b-2"]], "snapshot": [b1.to_string(), "b-snapshot"]},
